@@ -34,20 +34,39 @@ func (c *chunkRec) Write(p []byte) (int, error) {
 }
 
 // traceDecode: the `pretty` request for the driver, "" if HandleReader does not get a decode error
-func traceDecode(input []byte, batchDisabled bool) string {
+func traceDecode(input []byte, batchDisabled bool, consumeBlanks bool) string {
 	rec := &chunkRec{}
 	br := bufio.NewReaderSize(io.TeeReader(bytes.NewReader(input), rec), 128) // server.go: bufferSize
 	batch := false
-	for n := 1; ; n++ {
-		buf, err := br.Peek(n)
-		if err != nil {
+	skipped := 0
+	if consumeBlanks { // isBatch since 4590891: blanks are consumed one by one, their number is unlimited
+		for {
+			buf, err := br.Peek(1)
+			if err != nil {
+				break
+			}
+			if c := buf[0]; c == ' ' || c == '\t' || c == '\r' || c == '\n' {
+				if _, err := br.Discard(1); err != nil {
+					break
+				}
+				skipped++
+				continue
+			}
+			batch = buf[0] == '['
 			break
 		}
-		if c := buf[n-1]; c == ' ' || c == '\t' || c == '\r' || c == '\n' {
-			continue
+	} else { // before: Peek(n) through the 128-byte buffer
+		for n := 1; ; n++ {
+			buf, err := br.Peek(n)
+			if err != nil {
+				break
+			}
+			if c := buf[n-1]; c == ' ' || c == '\t' || c == '\r' || c == '\n' {
+				continue
+			}
+			batch = buf[n-1] == '['
+			break
 		}
-		batch = buf[n-1] == '['
-		break
 	}
 	dec := json.NewDecoder(br)
 	dec.UseNumber()
@@ -76,7 +95,7 @@ func traceDecode(input []byte, batchDisabled bool) string {
 		kind = "eof"
 	}
 	var sb strings.Builder
-	fmt.Fprintf(&sb, "pretty %d", len(rec.lens))
+	fmt.Fprintf(&sb, "pretty %d %d", skipped, len(rec.lens))
 	for _, l := range rec.lens {
 		fmt.Fprintf(&sb, " %d", l)
 	}
@@ -118,7 +137,7 @@ func (rn *runner) prettyTie(w *World, inputs [][]byte, outs [][]byte) {
 		if _, ok := realPosition(outs[i]); !ok {
 			continue
 		}
-		if l := traceDecode(in, w.Spec.BatchDisabled); l != "" {
+		if l := traceDecode(in, w.Spec.BatchDisabled, rn.cfg.peek == "-"); l != "" {
 			lines = append(lines, l)
 			idx = append(idx, i)
 		}
